@@ -691,12 +691,14 @@ class AIPSW:
         print_results : bool, optional
             Whether to print the model results from the regression models. Default is True
         """
-        d, n, self.iptw = iptw_calculator(df=self.df,
-                                          treatment=self.exposure,
-                                          model_denom=model_denominator, model_numer=model_numerator,
-                                          weight=self.weight, stabilized=stabilized,
-                                          standardize='population',
-                                          bound=bound, print_results=print_results)
+        d, n, w = iptw_calculator(df=self.df[self.sample],
+                                  treatment=self.exposure,
+                                  model_denom=model_denominator, model_numer=model_numerator,
+                                  weight=self.weight, stabilized=stabilized,
+                                  standardize='population',
+                                  bound=bound, print_results=print_results)
+        self.iptw = np.full(self.df.shape[0], np.nan)  # treatment weights only exist for the study sample
+        self.iptw[np.asarray(self.sample)] = w
 
     def outcome_model(self, model, outcome_type='binary', print_results=True):
         """Build the g-transport model for the outcome. This is also referred to at the Q-model.
